@@ -1,6 +1,7 @@
 package main
 
 import (
+	"sort"
 	"bytes"
 	"fmt"
 	"github.com/ucan-wg/go-ucan/pkg/policy/literal"
@@ -1042,6 +1043,7 @@ func genToken(c *Ctx) {
 			for k := range it.Iter() {
 				ks = append(ks, k)
 			}
+			sort.Strings(ks) // which keys a token holds is the observation; their order is nobody's property
 			return WStrs(ks)
 		}
 		obs := safe(func() W {
@@ -1064,9 +1066,9 @@ func genToken(c *Ctx) {
 		})
 		var want W
 		if first {
-			want = WList(WStrs([]string{"path", "limit", "ka"}), WStrs([]string{"path", "limit", "kb"}), WStrs([]string{"path", "limit", "later"}))
+			want = WList(WStrs([]string{"ka", "limit", "path"}), WStrs([]string{"kb", "limit", "path"}), WStrs([]string{"later", "limit", "path"}))
 		} else {
-			want = WList(WStrs([]string{"ka", "path", "limit"}), WStrs([]string{"kb", "path", "limit"}), WStrs([]string{"path", "limit", "later"}))
+			want = WList(WStrs([]string{"ka", "limit", "path"}), WStrs([]string{"kb", "limit", "path"}), WStrs([]string{"later", "limit", "path"}))
 		}
 		c.Emit("tok/args-shared", WList(WStr("seq"), WList(want)), obs)
 	}
